@@ -353,7 +353,7 @@ prop("C17",
 
 
 prop("C18",
-     [dict(name="C18", src="C18.cpp", cxxflags=LOCK_FLAGS, deadline=dict(quick=100, thorough=1500))],
+     [dict(name="C18", src="C18.cpp", cxxflags=LOCK_FLAGS, deadline=dict(quick=100, thorough=1200))],
      "Sequential part: every call sequence up to depth 4 (5 thorough) over {getFuture(k), setDelayedValue(k,v) copy "
      "and move, fulfillAllPromises(v), finishedWithValue(k)} for keys {int 0, int 1, string \"x\"} (each key "
      "requested once) on DelayedObjects<int> and DelayedObjects<std::string> (heap-allocated values), followed by "
@@ -377,7 +377,7 @@ prop("C18",
 
 
 prop("C19",
-     [dict(name="C19", src="C19.cpp", cxxflags=LOCK_FLAGS, deadline=dict(quick=100, thorough=1500), required_cover=2)],
+     [dict(name="C19", src="C19.cpp", cxxflags=LOCK_FLAGS, deadline=dict(quick=100, thorough=1200), required_cover=2)],
      "Sequential part: every sequence up to depth 4 (5 thorough) over {create trigger in slot 0/1 on line L0, L1 "
      "(explicit), declared, indexed[0], indexed[1]; move-construct slot->slot; move-assign slot->slot; destroy "
      "slot (including moved-from objects); out-of-range index}; after every step a fresh detector on every line is "
@@ -401,7 +401,7 @@ prop("C19",
 
 
 prop("C20",
-     [dict(name="C20", src="C20.cpp", cxxflags=LOCK_FLAGS, deadline=dict(quick=100, thorough=1500))],
+     [dict(name="C20", src="C20.cpp", cxxflags=LOCK_FLAGS, deadline=dict(quick=100, thorough=1200))],
      "Fault enumeration layered on the schedule explorer: user code (modify/read functors - at entry and half-way "
      "through their update -, predicates, callbacks, the payload's copy constructor / assignment / comparison) "
      "calls may_throw(site); for each program the fault-free exploration first measures the number of calls per "
